@@ -35,6 +35,91 @@ func init() {
 	extraWirings["C15rq"] = wiringC15Rq
 	extraWirings["C15rx"] = wiringC15Rx
 	c15Wirings = append(c15Wirings, "C15rq", "C15rx")
+	// (seeded C15-w9-1) link collections OWNED BY A CHILD STORE, see below
+	extraWirings["C15cp"] = func() *wiring { return wiringC15ChildLinked("C15cp", []string{"pc"}) }
+	extraWirings["C15cm"] = func() *wiring { return wiringC15ChildLinked("C15cm", []string{"px", "pc"}) }
+	c15Wirings = append(c15Wirings, "C15cp", "C15cm")
+}
+
+// ---- link collections owned by a child store (seeded C15-w9-1) ---------------------------------------------------------
+//
+// Every link collection of the C15 stream was declared on a family's PARENT store (C15lp / C15lx / C15lm, idx, C15np).  The
+// delete of an entity with child data runs the delete work of BOTH levels; a link collection a CHILD store declares
+// (AddLinkCollection on the child store: its local set lives inside the child bucket) is cleaned by the child level's
+// work only, so "the delete through either store leaves nothing of the child part - the peers' back references
+// included" was never exercised for it.  wiringC15ChildLinked = wiringC15Linked (the parent keeps its collections to
+// the peer site and to itself) plus a collection of the PLAIN child store to the peer: pc.csites <-> site.ccrew (C15cp: pc
+// alone; C15cm: the extended px registered before pc).  An EXTENDED child store gets no link collection: on the
+// unmodified tree such a store makes DeleteById fail for every parent entity without extension data (candidate defect
+// recorded in design/C06.md; the first version of these wirings, with px.xsites <-> site.xcrew, met it in 87 of 1500
+// histories: impl err / model ok).  The oracles of checks/c15.py (link_sets / link_oracle / peer_mentions / delete-left-parts)
+// key link sets by the ROOT store of the declaring store and need no change; the facts projection (store.go) shows
+// the sets inside a child bucket as S:<root>:<id>:<set>:<member>.  c15GenChildLink: link operations on those
+// collections, aimed at entities with data of the owning child store.  Side conditions: Examples/C15Validation.v.
+func wiringC15ChildLinked(name string, kids []string) *wiring {
+	w := wiringC15Linked(name, kids)
+	for _, k := range kids {
+		switch k {
+		case "pc":
+			w.Script = append(w.Script, wiringDecl{Kind: "link", Store: "pc", Field: "csites", Target: "site", Back: "ccrew"})
+		}
+	}
+	return w
+}
+
+func c15HasChildLinks(w *wiring, root *sStore) bool {
+	for _, s := range w.Stores {
+		if s.Parent == root.Name && len(s.Links) > 0 {
+			return true
+		}
+	}
+	return false
+}
+
+// c15GenChildLink: AddLinks / RemoveLinks on a link collection declared on a child store of the family root, for an
+// entity that (mostly) has data of that child store, towards existing peers; false = the wiring has no such collection
+func (g *xGen) c15GenChildLink(root *sStore) (hOp, bool) {
+	type owned struct {
+		st *sStore
+		l  sLink
+	}
+	var cands []owned
+	for _, s := range g.w.Stores {
+		if s.Parent == root.Name {
+			for _, l := range s.Links {
+				cands = append(cands, owned{s, l})
+			}
+		}
+	}
+	if len(cands) == 0 {
+		return hOp{}, false
+	}
+	c := cands[g.r.intn(len(cands))]
+	alive := g.sortedAlive(root.Name)
+	peers := g.sortedAlive(g.rootOf(c.l.Other))
+	if len(alive) == 0 || len(peers) == 0 {
+		return hOp{}, false
+	}
+	var withChild []string
+	for _, id := range alive {
+		if g.snap.child[c.st.Name][id] {
+			withChild = append(withChild, id)
+		}
+	}
+	op := hOp{Kind: "AL", Store: c.st.Name, LinkF: c.l.Local}
+	if g.r.chance(12) {
+		op.Kind = "RL"
+	}
+	if len(withChild) > 0 && g.r.chance(85) {
+		op.Id = g.pickFrom(withChild)
+	} else {
+		op.Id = g.pickFrom(alive)
+	}
+	n := 1 + g.r.intn(2)
+	for i := 0; i < n; i++ {
+		op.Targets = append(op.Targets, g.pickFrom(peers))
+	}
+	return op, true
 }
 
 // C15rq: C15np + required parent field badge, required child field mode
